@@ -276,6 +276,7 @@ func buildProperties() []Property {
 			NotDecided: "the delay bound (Go-level loops between polls are bounded by term size, not by a constant), and that the interpreter stays usable afterwards.",
 			Rules: []RuleDef{
 				{"R-FORCE-ERR-PROPAGATED", 6, ruleForceErrPropagated},
+				{"R-LOAD-POLLS-CTX", 1, ruleLoadPollsCtx},
 				{"R-DONE-REPORTS", 1, ruleDoneReports},
 				{"R-FORCE-CTX", 8, ruleForceCtx},
 				{"R-POLL-IN-LOOP", 3, rulePollInLoop},
